@@ -111,12 +111,18 @@ class FormulaEvaluator(Generic[QuantityT]):
                 f"Some resampled metrics didn't arrive, for formula: {self._name}"
             )
 
-        if self._first_run:
+        timestamps = {
+            sample.timestamp
+            for sample in (res.result() for res in ready_metrics)
+            if sample is not None
+        }
+        # The streams need to be synchronized before the first run, and again
+        # whenever they get out of sync, for example because a stream was replaced
+        # by its fallback.
+        if self._first_run or len(timestamps) > 1:
             metric_ts = await self._synchronize_metric_timestamps(ready_metrics)
         else:
-            sample = next(iter(ready_metrics)).result()
-            assert sample is not None
-            metric_ts = sample.timestamp
+            metric_ts = timestamps.pop()
 
         for step in self._steps:
             step.apply(eval_stack)
